@@ -417,16 +417,44 @@ def extract(bdir):
     def compound(fnode):
         return [n for n in walk(fnode) if n.get("kind") == "CompoundAssignOperator"]
 
+    def callee_names(fnode):
+        out_ = []
+        for x in walk(fnode):
+            if x.get("kind") == "CallExpr":
+                for y in walk(x["inner"][0]):
+                    nm = ref_name(y)
+                    if nm and nm not in out_:
+                        out_.append(nm)
+        return out_
+
+    def bodies(f):
+        """the function itself and the helpers of this file it calls directly (a harmless `extract helper`
+        refactoring keeps the tie: the statement is looked for there too)"""
+        res = [(f, ast_function(bdir, SRC, f))]
+        for nm in callee_names(body_of(res[0][1])):
+            if nm in ("free_call", "free_called_call", "time_left") or not re.search(r"^%s\s*\(" % re.escape(nm), text, re.M):
+                continue
+            try:
+                res.append((nm, ast_function(bdir, SRC, nm)))
+            except TieBroken:
+                pass
+        return res
+
     unl = {}
+    unl_home = {}
     for f in ("remove_call_out", "remove_call_out_by_handle", "remove_all_call_out"):
-        fn = ast_function(bdir, SRC, f)
-        cs = [n for n in compound(body_of(fn)) if chain(n["inner"][0])[-1] == "delta"]
-        need(f + ".unlink", len(cs) == 1, "exactly one update of a `delta` field expected (`cop->next->delta += cop->delta`), found %d" % len(cs))
-        c = cs[0]
+        cs = []
+        for nm, fnode in bodies(f):
+            for n in compound(body_of(fnode)):
+                if chain(n["inner"][0])[-1] == "delta":
+                    cs.append((nm, fnode, n))
+        need(f + ".unlink", len(cs) == 1, "exactly one update of a `delta` field expected (`cop->next->delta += cop->delta`, "
+             "in the function or in a helper it calls), found %d" % len(cs))
+        home, hnode, c = cs[0]
         need(f + ".unlink", chain(c["inner"][0]) == ("cop", "next", "delta") and chain(c["inner"][1]) == ("cop", "delta")
              and c.get("opcode") in ("+=", "-="), "not of the form `cop->next->delta += cop->delta`: %s" % src_of(c, text))
-        # the update must be guarded by `if (cop->next)` and precede the unlink `*copp = cop->next`
         unl[f] = (c.get("opcode")[0], c)
+        unl_home[f] = hnode
     need("unlink", len(set(v[0] for v in unl.values())) == 1, "the three copies of the successor update differ")
     uop, un = list(unl.values())[0]
     out.append("/-- remove_call_out[_by_handle], remove_all_call_out: `%s` (the removed entry's delta is folded into its "
@@ -499,10 +527,29 @@ def extract(bdir):
             return "obNonNull"
         raise TieBroken("c10:" + site, "%s: condition leaves the grammar: %s" % (site, src_of(n, text)))
 
+    _frees_cache = {}
+
+    def helper_frees(nm):
+        if nm not in _frees_cache:
+            _frees_cache[nm] = False
+            if nm == "free_call":
+                _frees_cache[nm] = True
+            elif re.search(r"^%s\s*\(" % re.escape(nm), text, re.M):
+                try:
+                    hb = body_of(ast_function(bdir, SRC, nm))
+                    _frees_cache[nm] = any(ref_name(y) == "free_call" for x in walk(hb) if x.get("kind") == "CallExpr"
+                                           for y in walk(x["inner"][0]))
+                except TieBroken:
+                    pass
+        return _frees_cache[nm]
+
+    def frees(x):
+        """x contains a call of free_call, directly or through a helper of this file"""
+        return any(helper_frees(ref_name(z)) for y in walk(x) if y.get("kind") == "CallExpr" for z in walk(y["inner"][0])
+                   if ref_name(z))
+
     fn = ast_function(bdir, SRC, "call_out")
-    drops = [n for n in walk(body_of(fn)) if n.get("kind") == "IfStmt" and len(kids(n)) == 3
-             and any(x.get("kind") == "CallExpr" and any(ref_name(y) == "free_call" for y in walk(x["inner"][0]))
-                     for x in walk(kids(n)[1]))]
+    drops = [n for n in walk(body_of(fn)) if n.get("kind") == "IfStmt" and len(kids(n)) == 3 and frees(kids(n)[1])]
     need("call_out.drop", len(drops) == 1, "the `if (cop->ob && (cop->ob->flags & O_DESTRUCTED))` drop test not found")
     out.append("/-- call_out: the entry is dropped without a call when `%s` -/\ndef dropCond (obNonNull obDead : Bool) : Bool :=\n  %s\n"
                % (src_of(kids(drops[0])[0], text), bexp("call_out.drop", kids(drops[0])[0])))
@@ -521,12 +568,9 @@ def extract(bdir):
 
     # ---- ownership tests: remove_all_call_out, remove_call_out / find_call_out by name ---------------------------
     fn = ast_function(bdir, SRC, "remove_all_call_out")
-    ifs = [n for n in walk(body_of(fn)) if n.get("kind") == "IfStmt" and len(kids(n)) == 3
-           and any(x.get("kind") == "CallExpr" and any(ref_name(y) == "free_call" for y in walk(x["inner"][0]))
-                   for x in walk(kids(n)[1]))]
+    ifs = [n for n in walk(body_of(fn)) if n.get("kind") == "IfStmt" and len(kids(n)) == 3 and frees(kids(n)[1])]
     need("remove_all_call_out.owner", len(ifs) == 1, "the ownership test `if (... ob == obj || destructed ...) unlink else advance` not found")
-    need("remove_all_call_out.owner", not any(x.get("kind") == "CallExpr" and any(ref_name(y) == "free_call" for y in walk(x["inner"][0]))
-                                              for x in walk(kids(ifs[0])[2])), "the else branch frees an entry")
+    need("remove_all_call_out.owner", not frees(kids(ifs[0])[2]), "the else branch frees an entry")
     out.append("/-- remove_all_call_out: an entry is removed when `%s` -/\n"
                "def removeAllCond (obNonNull obIsObj obDead fpIsObj fpDead : Bool) : Bool :=\n  %s\n"
                % (src_of(kids(ifs[0])[0], text)[:280], bexp("remove_all_call_out.owner", kids(ifs[0])[0])))
@@ -550,7 +594,7 @@ def extract(bdir):
         return x.get("kind") == "BinaryOperator" and x.get("opcode") == "=" and chain(x["inner"][0]) == ("*copp",) \
             and chain(x["inner"][1]) == ("cop", "next")
     for f in ("remove_call_out", "remove_call_out_by_handle", "remove_all_call_out"):
-        fn = ast_function(bdir, SRC, f)
+        fn = unl_home[f]
         blocks = [b for b in walk(body_of(fn)) if b.get("kind") == "CompoundStmt" and any(is_unlink(x) for x in kids(b))]
         need(f + ".order", len(blocks) == 1, "the block with `*copp = cop->next` not found")
         ks = kids(blocks[0])
